@@ -1107,8 +1107,13 @@ template <class T> struct CB
     {
         T v = V<T>::mk(stamp++);
         mc::crash_context("C03.cyclic_buffer.push.memory");
-        cb.push(v);
+        T ret = cb.push(v);
         mc::crash_context("C03.harness");
+        // Once the buffer is full, push() hands back the sample that leaves the window: the cap-th previous one
+        // (what [cap-1] addressed before the call). While it is still filling the slot was never written: unchecked.
+        if (hist.size() >= cap && !(ret == hist[hist.size() - cap]))
+            VIOL("C03.cyclic_buffer.push.evicted_value", "push(%s) on a full buffer of %zu slots returned %s, the sample that leaves the window (the %zu-th previous one) is %s",
+                 V<T>::str(v).c_str(), cap, V<T>::str(ret).c_str(), cap, V<T>::str(hist[hist.size() - cap]).c_str());
         hist.push_back(v);
     }
     void observe(const char *when)
